@@ -9,6 +9,7 @@ package main
 import (
 	"encoding/json"
 	"fmt"
+	"sort"
 	"strings"
 	"sync"
 	"time"
@@ -16,6 +17,7 @@ import (
 	btcConfig "github.com/ChainSafe/sygma-relayer/chains/btc/config"
 	btcExecutor "github.com/ChainSafe/sygma-relayer/chains/btc/executor"
 	"github.com/ChainSafe/sygma-relayer/chains/btc/mempool"
+	evmExecutorPkg "github.com/ChainSafe/sygma-relayer/chains/evm/executor"
 	subExecutor "github.com/ChainSafe/sygma-relayer/chains/substrate/executor"
 	"github.com/ChainSafe/sygma-relayer/comm"
 	"github.com/ChainSafe/sygma-relayer/comm/elector"
@@ -177,6 +179,31 @@ func init() {
 		outs := []string{run(ea, a[0], a[1])}
 		_ = run(eb, "9-9-1-5", "p") // relayer B has signed something else before
 		outs = append(outs, run(eb, a[0], a[1]), run(ea, a[0], a[1]))
+		return agreeOut(outs)
+	}
+	// evmsigsession <cap> <tg> <msgId> <props>  =>  the session ids the signing PROCESSES of the delivery's batches run under
+	// (sorted, ','-separated; "-" if nothing is signed): relayer A twice on one Executor, relayer B after another delivery
+	ops["C19.evmsigsession"] = func(a []string) string {
+		peers := c19KeyPeers()
+		mk := func(i int, spec, msgID string) (*evmExecutorPkg.Executor, []*proposal.Proposal) {
+			ps, st := mkProps(spec, msgID)
+			h := newC19Host(peers[i])
+			c := &c19Comm{}
+			return evmExecutorPkg.NewExecutor(h, c, newC19Coordinator(h, c), &fakeBridge{status: st},
+				keyshare.NewECDSAKeyshareStore(fmt.Sprintf("%s/tss/test/keyshares/%d.keyshare", repoRoot(), i)), &sync.RWMutex{}, u64(a[0]), u64(a[1])), ps
+		}
+		run := func(e *evmExecutorPkg.Executor, ps []*proposal.Proposal) string {
+			r := withSidLog(func() { _ = e.Execute(ps) })
+			xs := items(r, ",")
+			sort.Strings(xs)
+			return joinOr(xs, ",")
+		}
+		ea, psa := mk(0, a[3], a[2])
+		eb, psb := mk(1, a[3], a[2])
+		outs := []string{run(ea, psa)}
+		other, _ := mkProps("n:p;n:p", "9-9-1-5")
+		_ = run(eb, other)
+		outs = append(outs, run(eb, psb), run(ea, psa))
 		return agreeOut(outs)
 	}
 	// btcsession <msgId> <inputs 1..3> <props>  =>  same:<number of signing sessions> | the differing id lists
